@@ -2,6 +2,7 @@ package mutations
 
 import (
 	"fmt"
+	"sort"
 
 	"github.com/evolbioinfo/goalign/align"
 	"github.com/evolbioinfo/gotree/io"
@@ -44,7 +45,14 @@ func CountEEMs(t *tree.Tree, a align.Alignment) (mutations *MutationList, err er
 			io.LogError(err)
 			return
 		}
-		for _, v := range sitemutations.Mutations {
+		// Reproducible order: the first occurence of a mutation is the one that is kept
+		sitekeys := make([]string, 0, len(sitemutations.Mutations))
+		for k := range sitemutations.Mutations {
+			sitekeys = append(sitekeys, k)
+		}
+		sort.Strings(sitekeys)
+		for _, k := range sitekeys {
+			v := sitemutations.Mutations[k]
 			id := fmt.Sprintf("%d-%c-%c", v.AlignmentSite,
 				rune(v.ParentCharacter), rune(v.ChildCharacter))
 			m, ok := mutations.Mutations[id]
